@@ -22,11 +22,13 @@ ASSUMPTIONS = ["element objects are truthy"]
 
 def plan(tier, seed):
     n = 250 if tier == "quick" else 3000
-    return [{"n": n, "sub": i} for i in range(16)]
+    specs_ = [{"n": n, "sub": i} for i in range(16)]
+    specs_ += [{"kind": "ix", "n": 40 if tier == "quick" else 400, "sub": 900 + i} for i in range(16)]
+    return specs_
 
 
 def floors(tier):
-    return {"distinct_nontrivial": 300, "cls:variant:one": 500, "cls:variant:in": 300, "cls:variant:contains": 300,
+    return {"cls:feature_interaction_query": 300, "distinct_nontrivial": 300, "cls:variant:one": 500, "cls:variant:in": 300, "cls:variant:contains": 300,
             "cls:variant:notin": 300, "cls:variant:notcontains": 200, "cls:variant:or_in": 150, "cls:variant:not_and_in": 150,
             "cls:variant:and_in": 150, "cls:variant:one_setof": 100, "cls:variant:in_with_list": 100, "cls:variant:index0": 100, "cls:variant:two_lists": 100, "cls:variant:two_tests_same_parent": 100, "cls:variant:parent_bound_first": 100, "cls:preceded_by_an_abandoned_evaluation": 1000,
             "cls:inner_collections_are_one_shot_iterators": 150, "cls:concatenate_of_flatten_over_lists_of_lists": 100, "cls:variant:prebound_in": 150, "cls:variant:prebound_notin": 100,
@@ -35,6 +37,11 @@ def floors(tier):
 
 
 def cases(spec, ctx):
+    if spec.get("kind") == "ix":
+        from .. import ix
+        for i in range(spec["n"]):
+            yield {"ix": ix.gen_case_for(ctx.rng(spec["sub"], i), ID)}
+        return
     for i in range(spec["n"]):
         rng = ctx.rng(spec["sub"], i)
         w = gen_world(rng)
@@ -85,6 +92,9 @@ class _ReprLabels(dict):
 
 
 def check_case(case, ctx):
+    if "ix" in case:
+        from .. import ix
+        return ix.check(case["ix"], ctx)
     from entity_query_language import symbolic_mode, an, entity, let, in_, contains, not_, or_, and_
     from entity_query_language.entity import concatenate, flatten
     from entity_query_language.cache_data import enable_caching, disable_caching
